@@ -227,6 +227,15 @@ class ChildOperationExecutor(OperationExecutor[T]):
             raise
         except Exception as e:
             error_object = ErrorObject.from_exception(e)
+            if (
+                checkpointed_result.is_succeeded()
+                and checkpointed_result.is_replay_children()
+            ):
+                # The context is already recorded as SUCCEEDED (its summarised body is only being
+                # traversed again): nothing may be sent for a terminal operation.
+                if isinstance(e, InvocationError):
+                    raise
+                raise error_object.to_callable_runtime_error() from e
             fail_operation: OperationUpdate = OperationUpdate.create_context_fail(
                 identifier=self.operation_identifier,
                 error=error_object,
